@@ -104,6 +104,14 @@ func (c RawConfiguration) CorrectableCall(ctx context.Context, d CorrectableCall
 	expectedReplies := len(c)
 	md := &ordering.Metadata{MessageID: c.getMsgID(), Method: d.Method}
 
+	corr := &Correctable{level: LevelNotSet, donech: make(chan struct{}, 1)}
+	var done <-chan struct{}
+	if d.ServerStream {
+		// a node may send more replies than the call has room for or cares to
+		// receive; the nodes' channels must not wait for a call that has completed.
+		done = corr.donech
+	}
+
 	replyChan := make(chan response, expectedReplies)
 	for _, n := range c {
 		msg := d.Message
@@ -114,10 +122,8 @@ func (c RawConfiguration) CorrectableCall(ctx context.Context, d CorrectableCall
 				continue // don't send if no msg
 			}
 		}
-		n.channel.enqueue(request{ctx: ctx, msg: &Message{Metadata: md, Message: msg}}, replyChan, d.ServerStream)
+		n.channel.enqueue(request{ctx: ctx, msg: &Message{Metadata: md, Message: msg}, done: done}, replyChan, d.ServerStream)
 	}
-
-	corr := &Correctable{level: LevelNotSet, donech: make(chan struct{}, 1)}
 
 	go c.handleCorrectableCall(ctx, corr, correctableCallState{
 		md:              md,
